@@ -38,7 +38,7 @@ Definition counted {A} (rd : nat -> list N -> A * list N) (s : list N) : A * lis
 
 Record ok_case := mkOk {
   k_depths : dlN; k_leafh : dlN; k_branch : list (N * N * N);
-  k_root : N; k_items : list (N * N * list N); k_api : dlN; k_parsed : dlN; k_toks : list N; k_transl : dlN;
+  k_root : N; k_items : list (N * N * list N); k_api : dlN; k_parsed : dlN; k_toks : list N; k_transl : dlN; k_ttree : dlN;
   k_rest : list N (* must be empty *) }.
 Definition decode_ok (c : int * list int) : ok_case :=
   let s := unpack c in
@@ -51,7 +51,8 @@ Definition decode_ok (c : int * list int) : ok_case :=
   let (parsed, s) := counted read_pairs s in
   let (toks, s) := counted (fun n s => (firstn n s, skipn n s)) s in
   let (transl, s) := counted read_pairs s in
-  mkOk depths leafh branch rootv items api parsed toks transl s.
+  let (ttree, s) := counted read_pairs s in
+  mkOk depths leafh branch rootv items api parsed toks transl ttree s.
 Definition decode_rej (c : int * list int) : dlN * N * N :=
   let (depths, s) := counted read_pairs (unpack c) in (depths, hd 9%N s, hd 9%N (tl s)).
 Definition decode_bad (c : int * list int) : list N * N :=
@@ -77,6 +78,10 @@ Fixpoint list_eqb {A} (f : A -> A -> bool) (a b : list A) : bool :=
   end.
 Definition pair_eqb (a b : N * N) := N.eqb (fst a) (fst b) && N.eqb (snd a) (snd b).
 Definition dl_eqb := list_eqb pair_eqb.
+(* equality as multisets: rust-bitcoin's TapTree lists leaves with siblings ordered by hash *)
+Definition count_pair (p : N * N) (l : dlN) : nat := length (filter (pair_eqb p) l).
+Definition perm_eqb (a b : dlN) : bool :=
+  Nat.eqb (length a) (length b) && forallb (fun p => Nat.eqb (count_pair p a) (count_pair p b)) a.
 Definition item_eqb (a b : N * N * list N) :=
   N.eqb (fst (fst a)) (fst (fst b)) && N.eqb (snd (fst a)) (snd (fst b)) && list_eqb N.eqb (snd a) (snd b).
 
@@ -88,7 +93,7 @@ Definition dec_tok (n : N) : tok N :=
   match n with 0 => TOpen | 1 => TClose | 2 => TComma | _ => TLeafTok (n - 3) end%N.
 
 (* what the model computes for one shape: root id, items, API depth list, parsed depth list,
-   printed tokens, translated depth list (empty / 0 = the model panicked or erred) *)
+   printed tokens, translated depth list, to_tap_tree depth list (empty / 0 = the model panicked or erred) *)
 Definition model_ok (c : ok_case) :=
   let dl := ndl (k_depths c) in
   let lH := fun l => assoc l (k_leafh c) in
@@ -105,15 +110,18 @@ Definition model_ok (c : ok_case) :=
   let parsed := match t with Some t => match parse_tokens N (tokens_of_tree N t) with TOk d => dln d | _ => [] end | None => [] end in
   let toks := map enc_tok (print_tokens N dl) in
   let transl := match translate_dl N N (fun l => Some l) dl with TOk d => dln d | _ => [] end in
-  (rootv, items, api, parsed, toks, transl).
+  let ttree := match ns with
+               | TOk n => match to_tap_tree N N n with TOk (Some t) => dln (depths_of_tree N t) | _ => [] end
+               | _ => [] end in
+  (rootv, items, api, parsed, toks, transl, ttree).
 
-(* component-wise comparison: root, items (leaf, depth, path), API, parsed, tokens, translated,
+(* component-wise comparison: root, items (leaf, depth, path), API, parsed, tokens, translated, to_tap_tree,
    and the stream was consumed exactly with a non-empty shape *)
 Definition check_ok (p : int * list int) : list bool :=
   let c := decode_ok p in
-  let '(mroot, mitems, mapi, mparsed, mtoks, mtransl) := model_ok c in
+  let '(mroot, mitems, mapi, mparsed, mtoks, mtransl, mttree) := model_ok c in
   [N.eqb (k_root c) mroot && negb (N.eqb mroot 0); list_eqb item_eqb (k_items c) mitems; dl_eqb (k_api c) mapi;
-   dl_eqb (k_parsed c) mparsed; list_eqb N.eqb (k_toks c) mtoks; dl_eqb (k_transl c) mtransl;
+   dl_eqb (k_parsed c) mparsed; list_eqb N.eqb (k_toks c) mtoks; dl_eqb (k_transl c) mtransl; perm_eqb (k_ttree c) mttree;
    match k_rest c, k_depths c with [], _ :: _ => true | _, _ => false end].
 
 Definition model_rej (c : dlN * N * N) : N * N :=
